@@ -73,13 +73,20 @@ def c14_export(d):
   w = d["witness"] or {}
   bits = int(w.get("bits", 4))
   integer = int(w.get("integer", 0))
+  # power-of-two kinds: a wide exponent field when the witness names a small exponent (epsilon-floor region)
+  we = w.get("e")
+  pbits = 8 if (we is not None and int(we) < -8) else 4
   kq = {"fixed": lambda: quantized_bits(4, 0, 1), "binary": lambda: binary(),
-        "po2": lambda: quantized_po2(4), "relu_po2": lambda: quantized_relu_po2(4),
+        "po2": lambda: quantized_po2(pbits), "relu_po2": lambda: quantized_relu_po2(pbits),
         "auto_po2": lambda: quantized_bits(bits, integer, 1, alpha="auto_po2")}[kind]()
   x = Input((4,))
   y = QDense(3, kernel_quantizer=kq, bias_quantizer=quantized_bits(4, 0, 1), name="d")(x)
   m = Model(x, y)
   wts = np.array([[0.11, -0.32, 0.9], [0.05, 0.2, -0.7], [0.3, 0.1, 0.4], [-0.2, 0.25, 0.6]], dtype=np.float32) * 3
+  if kind in ("po2", "relu_po2") and we is not None:
+    sgn = float(w.get("sgn", 1)) if kind == "po2" else 1.0
+    wts[0, 0] = np.float32(sgn * 2.0 ** max(int(we), -120))     # the witness weight
+    wts[1, 1] = 0.0                                             # and a pruned (zero) weight
   m.get_layer("d").set_weights([wts, np.array([0.1, -0.2, 0.3], dtype=np.float32)])
   saved_find = U.find_bn_fusing_layer_pair
   U.find_bn_fusing_layer_pair = lambda model, custom_objects={}: ({}, set())
